@@ -21,10 +21,6 @@ From AL Require Import Base BaseFacts EventFacts.
 From AL.Sched Require Import EvOwn.
 From AL.Sched Require RwReadEvSched RwWriteEvSched RwReadEvInv RwWriteEvInv.
 From Coq Require Import Lia.
-Module R := RwReadEvSched.
-Module W := RwWriteEvSched.
-Module RI := RwReadEvInv.
-Module WI := RwWriteEvInv.
 Open Scope N_scope.
 Open Scope list_scope.
 
@@ -34,112 +30,112 @@ Inductive cact :=
 | CWEnter (j : nat) (up : bool) | CWPoll (j : nat) | CWStep (j : nat) | CWCancel (j : nat) | CWUnlock (j : nat) | CWDowngrade (j : nat)
 | CPendNW.
 
-Record cst := mkC { cR : R.gst; cW : W.gst; aR : list R.act; aW : list W.act }.
+Record cst := mkC { cR : RwReadEvSched.gst; cW : RwWriteEvSched.gst; aR : list RwReadEvSched.act; aW : list RwWriteEvSched.act }.
 
-Definition wpc (s : W.gst) (j : nat) : option W.pcs := option_map W.fpc (W.getf s j).
-Definition enter_ok (s : W.gst) (j : nat) (up : bool) : bool :=
+Definition wpc (s : RwWriteEvSched.gst) (j : nat) : option RwWriteEvSched.pcs := option_map RwWriteEvSched.fpc (RwWriteEvSched.getf s j).
+Definition enter_ok (s : RwWriteEvSched.gst) (j : nat) (up : bool) : bool :=
   match wpc s j with
-  | Some W.WIdle => negb (W.g_act s || (up && (W.g_rd s =? 0)))
+  | Some RwWriteEvSched.WIdle => negb (RwWriteEvSched.g_act s || (up && (RwWriteEvSched.g_rd s =? 0)))
   | _ => false
   end.
-Definition read_succeeds (s : R.gst) (i : nat) (fail : bool) : bool :=
-  match R.getf s i with
-  | Some f => match R.fpc f with R.R0 => negb (R.flw f) && negb (R.g_wb s) && negb fail | _ => false end
+Definition read_succeeds (s : RwReadEvSched.gst) (i : nat) (fail : bool) : bool :=
+  match RwReadEvSched.getf s i with
+  | Some f => match RwReadEvSched.fpc f with RwReadEvSched.R0 => negb (RwReadEvSched.flw f) && negb (RwReadEvSched.g_wb s) && negb fail | _ => false end
   | None => false
   end.
 
-Definition tr (s : cst) (a : cact) : list R.act * list W.act :=
+Definition tr (s : cst) (a : cact) : list RwReadEvSched.act * list RwWriteEvSched.act :=
   match a with
-  | CRPoll i lw0 => ([R.APoll i lw0], [])
-  | CRStep i fail => ([R.AStep i fail], if read_succeeds (cR s) i fail then [W.ARead] else [])
-  | CRCancel i => ([R.ACancel i], [])
-  | CRUnlock => ([], [W.ARUnlock])
-  | CURead => ([], [W.ARead])
-  | CPendNR => ([], [W.APend])
-  | CWEnter j up => if enter_ok (cW s) j up then ([R.AWSet], [W.AEnter j up]) else ([], [])
-  | CWPoll j => ([], [W.APoll j])
-  | CWStep j => ([], [W.AStep j])
+  | CRPoll i lw0 => ([RwReadEvSched.APoll i lw0], [])
+  | CRStep i fail => ([RwReadEvSched.AStep i fail], if read_succeeds (cR s) i fail then [RwWriteEvSched.ARead] else [])
+  | CRCancel i => ([RwReadEvSched.ACancel i], [])
+  | CRUnlock => ([], [RwWriteEvSched.ARUnlock])
+  | CURead => ([], [RwWriteEvSched.ARead])
+  | CPendNR => ([], [RwWriteEvSched.APend])
+  | CWEnter j up => if enter_ok (cW s) j up then ([RwReadEvSched.AWSet], [RwWriteEvSched.AEnter j up]) else ([], [])
+  | CWPoll j => ([], [RwWriteEvSched.APoll j])
+  | CWStep j => ([], [RwWriteEvSched.AStep j])
   | CWCancel j => match wpc (cW s) j with
-                  | Some W.WParked | Some W.WNew => ([R.AWClear], [W.ACancel j])
-                  | _ => ([], [W.ACancel j])
+                  | Some RwWriteEvSched.WParked | Some RwWriteEvSched.WNew => ([RwReadEvSched.AWClear], [RwWriteEvSched.ACancel j])
+                  | _ => ([], [RwWriteEvSched.ACancel j])
                   end
-  | CWUnlock j => match wpc (cW s) j with Some W.WDone => ([R.AWClear], [W.AUnlock j]) | _ => ([], []) end
-  | CWDowngrade j => match wpc (cW s) j with Some W.WDone => ([R.AWClear], [W.AUnlock j; W.ARead]) | _ => ([], []) end
-  | CPendNW => ([R.APend], [])
+  | CWUnlock j => match wpc (cW s) j with Some RwWriteEvSched.WDone => ([RwReadEvSched.AWClear], [RwWriteEvSched.AUnlock j]) | _ => ([], []) end
+  | CWDowngrade j => match wpc (cW s) j with Some RwWriteEvSched.WDone => ([RwReadEvSched.AWClear], [RwWriteEvSched.AUnlock j; RwWriteEvSched.ARead]) | _ => ([], []) end
+  | CPendNW => ([RwReadEvSched.APend], [])
   end.
 
 Definition cstep (s : cst) (a : cact) : cst :=
   let '(ra, wa) := tr s a in
-  mkC (fold_left (R.step true) ra (cR s)) (fold_left (W.step true) wa (cW s)) (aR s ++ ra) (aW s ++ wa).
-Definition c0 (nr nw : nat) : cst := mkC (R.g0 nr) (W.g0 0 nw) [] [].
+  mkC (fold_left (RwReadEvSched.step true) ra (cR s)) (fold_left (RwWriteEvSched.step true) wa (cW s)) (aR s ++ ra) (aW s ++ wa).
+Definition c0 (nr nw : nat) : cst := mkC (RwReadEvSched.g0 nr) (RwWriteEvSched.g0 0 nw) [] [].
 Definition crun (nr nw : nat) (sched : list cact) : cst := fold_left cstep sched (c0 nr nw).
 
 (* ---------- each component of a composed run is a run of that component's machine ---------- *)
 Lemma crun_components nr nw sched :
-  cR (crun nr nw sched) = R.run true nr (aR (crun nr nw sched)) /\ cW (crun nr nw sched) = W.run true 0 nw (aW (crun nr nw sched)).
+  cR (crun nr nw sched) = RwReadEvSched.run true nr (aR (crun nr nw sched)) /\ cW (crun nr nw sched) = RwWriteEvSched.run true 0 nw (aW (crun nr nw sched)).
 Proof.
-  unfold crun. assert (H : cR (c0 nr nw) = R.run true nr (aR (c0 nr nw)) /\ cW (c0 nr nw) = W.run true 0 nw (aW (c0 nr nw))) by (split; reflexivity).
+  unfold crun. assert (H : cR (c0 nr nw) = RwReadEvSched.run true nr (aR (c0 nr nw)) /\ cW (c0 nr nw) = RwWriteEvSched.run true 0 nw (aW (c0 nr nw))) by (split; reflexivity).
   revert H. generalize (c0 nr nw). induction sched as [|a l IH]; intros s H; cbn [fold_left]; [exact H|].
   apply IH. destruct H as (HR & HW). unfold cstep. destruct (tr s a) as [ra wa]. cbn [cR cW aR aW].
-  unfold R.run, W.run in *. rewrite !fold_left_app. rewrite <- HR, <- HW. split; reflexivity.
+  unfold RwReadEvSched.run, RwWriteEvSched.run in *. rewrite !fold_left_app. rewrite <- HR, <- HW. split; reflexivity.
 Qed.
 
 (* ---------- what the actions do to the bit ---------- *)
-Lemma R_wb_step s a : R.g_wb (R.step true s a) = match a with R.AWSet => true | R.AWClear => false | _ => R.g_wb s end.
+Lemma R_wb_step s a : RwReadEvSched.g_wb (RwReadEvSched.step true s a) = match a with RwReadEvSched.AWSet => true | RwReadEvSched.AWClear => false | _ => RwReadEvSched.g_wb s end.
 Proof.
-  destruct a as [i lw0|i fail|i| | |]; cbn [R.step].
-  - destruct (R.getf s i) as [f|]; [|reflexivity]. destruct (R.fpc f); reflexivity.
-  - destruct (R.getf s i) as [f|]; [|reflexivity]. destruct (R.fpc f); try reflexivity.
-    + destruct (negb (R.flw f)); [destruct (negb (R.g_wb s) && negb fail); reflexivity|].
-      destruct (R.flis f) as [id|]; [|reflexivity]. destruct (ev_poll id i (R.g_ev s)) as [[l [|]]|]; reflexivity.
-    + unfold R.do_notify. cbn [R.g_ev R.with_fut]. destruct (ev_notify 1 false (R.g_ev s)). reflexivity.
-    + unfold R.do_drop. cbn [R.g_ev]. destruct (ev_drop_opt (R.flis f) (R.g_ev s)). reflexivity.
-  - destruct (R.getf s i) as [f|]; [|reflexivity]. destruct (R.fpc f); try reflexivity;
-      unfold R.do_drop; cbn [R.g_ev R.with_fut]; destruct (ev_drop_opt (R.flis f) (R.g_ev s)); reflexivity.
-  - destruct (R.g_wb s) eqn:E; [exact E | reflexivity].
-  - destruct (R.g_wb s) eqn:E; [reflexivity | exact E].
-  - destruct (0 <? R.g_pend s); [|reflexivity]. unfold R.do_notify. cbn [R.g_ev]. destruct (ev_notify 1 false (R.g_ev s)). reflexivity.
+  destruct a as [i lw0|i fail|i| | |]; cbn [RwReadEvSched.step].
+  - destruct (RwReadEvSched.getf s i) as [f|]; [|reflexivity]. destruct (RwReadEvSched.fpc f); reflexivity.
+  - destruct (RwReadEvSched.getf s i) as [f|]; [|reflexivity]. destruct (RwReadEvSched.fpc f); try reflexivity.
+    + destruct (negb (RwReadEvSched.flw f)); [destruct (negb (RwReadEvSched.g_wb s) && negb fail); reflexivity|].
+      destruct (RwReadEvSched.flis f) as [id|]; [|reflexivity]. destruct (ev_poll id i (RwReadEvSched.g_ev s)) as [[l [|]]|]; reflexivity.
+    + unfold RwReadEvSched.do_notify. cbn [RwReadEvSched.g_ev RwReadEvSched.with_fut]. destruct (ev_notify 1 false (RwReadEvSched.g_ev s)). reflexivity.
+    + unfold RwReadEvSched.do_drop. cbn [RwReadEvSched.g_ev]. destruct (ev_drop_opt (RwReadEvSched.flis f) (RwReadEvSched.g_ev s)). reflexivity.
+  - destruct (RwReadEvSched.getf s i) as [f|]; [|reflexivity]. destruct (RwReadEvSched.fpc f); try reflexivity;
+      unfold RwReadEvSched.do_drop; cbn [RwReadEvSched.g_ev RwReadEvSched.with_fut]; destruct (ev_drop_opt (RwReadEvSched.flis f) (RwReadEvSched.g_ev s)); reflexivity.
+  - destruct (RwReadEvSched.g_wb s) eqn:E; [exact E | reflexivity].
+  - destruct (RwReadEvSched.g_wb s) eqn:E; [reflexivity | exact E].
+  - destruct (0 <? RwReadEvSched.g_pend s); [|reflexivity]. unfold RwReadEvSched.do_notify. cbn [RwReadEvSched.g_ev]. destruct (ev_notify 1 false (RwReadEvSched.g_ev s)). reflexivity.
 Qed.
 
-Definition wbit (s : W.gst) : bool * bool := (W.g_wb s, W.g_act s).
-Lemma W_wb_step s a : wbit (W.step true s a) =
+Definition wbit (s : RwWriteEvSched.gst) : bool * bool := (RwWriteEvSched.g_wb s, RwWriteEvSched.g_act s).
+Lemma W_wb_step s a : wbit (RwWriteEvSched.step true s a) =
   match a with
-  | W.AEnter j up => if enter_ok s j up then (true, true) else wbit s
-  | W.ACancel j => match wpc s j with Some W.WParked | Some W.WNew => (false, false) | _ => wbit s end
-  | W.AUnlock j => match wpc s j with Some W.WDone => (false, false) | _ => wbit s end
+  | RwWriteEvSched.AEnter j up => if enter_ok s j up then (true, true) else wbit s
+  | RwWriteEvSched.ACancel j => match wpc s j with Some RwWriteEvSched.WParked | Some RwWriteEvSched.WNew => (false, false) | _ => wbit s end
+  | RwWriteEvSched.AUnlock j => match wpc s j with Some RwWriteEvSched.WDone => (false, false) | _ => wbit s end
   | _ => wbit s
   end.
 Proof.
-  unfold wbit, enter_ok, wpc. destruct a as [i up|i|i|i|i| | |]; cbn [W.step].
-  - destruct (W.getf s i) as [f|]; cbn [option_map]; [|reflexivity]. destruct (W.fpc f); try reflexivity.
-    destruct (W.g_act s || (up && (W.g_rd s =? 0))); reflexivity.
-  - destruct (W.getf s i) as [f|]; [|reflexivity]. destruct (W.fpc f); reflexivity.
-  - destruct (W.getf s i) as [f|]; [|reflexivity]. destruct (W.fpc f); try reflexivity.
-    + destruct (W.g_rd s =? 0); reflexivity.
-    + destruct (W.flis f) as [id|]; [|reflexivity]. destruct (ev_poll id i (W.g_ev s)) as [[l [|]]|]; reflexivity.
-    + unfold W.do_drop. cbn [W.g_ev W.with_fut]. destruct (ev_drop_opt (W.flis f) (W.g_ev s)). reflexivity.
-    + unfold W.do_drop. cbn [W.g_ev W.with_fut]. destruct (ev_drop_opt (W.flis f) (W.g_ev s)). reflexivity.
-  - destruct (W.getf s i) as [f|]; cbn [option_map]; [|reflexivity]. destruct (W.fpc f); reflexivity.
-  - destruct (W.getf s i) as [f|]; cbn [option_map]; [|reflexivity]. destruct (W.fpc f); reflexivity.
-  - destruct (W.g_wb s) eqn:E; cbn [W.g_wb W.g_act]; rewrite ?E; reflexivity.
-  - destruct (0 <? W.g_rd s); reflexivity.
-  - destruct (0 <? W.g_pend s); [|reflexivity]. unfold W.do_notify. cbn [W.g_ev]. destruct (ev_notify 1 false (W.g_ev s)). reflexivity.
+  unfold wbit, enter_ok, wpc. destruct a as [i up|i|i|i|i| | |]; cbn [RwWriteEvSched.step].
+  - destruct (RwWriteEvSched.getf s i) as [f|]; cbn [option_map]; [|reflexivity]. destruct (RwWriteEvSched.fpc f); try reflexivity.
+    destruct (RwWriteEvSched.g_act s || (up && (RwWriteEvSched.g_rd s =? 0))); reflexivity.
+  - destruct (RwWriteEvSched.getf s i) as [f|]; [|reflexivity]. destruct (RwWriteEvSched.fpc f); reflexivity.
+  - destruct (RwWriteEvSched.getf s i) as [f|]; [|reflexivity]. destruct (RwWriteEvSched.fpc f); try reflexivity.
+    + destruct (RwWriteEvSched.g_rd s =? 0); reflexivity.
+    + destruct (RwWriteEvSched.flis f) as [id|]; [|reflexivity]. destruct (ev_poll id i (RwWriteEvSched.g_ev s)) as [[l [|]]|]; reflexivity.
+    + unfold RwWriteEvSched.do_drop. cbn [RwWriteEvSched.g_ev RwWriteEvSched.with_fut]. destruct (ev_drop_opt (RwWriteEvSched.flis f) (RwWriteEvSched.g_ev s)). reflexivity.
+    + unfold RwWriteEvSched.do_drop. cbn [RwWriteEvSched.g_ev RwWriteEvSched.with_fut]. destruct (ev_drop_opt (RwWriteEvSched.flis f) (RwWriteEvSched.g_ev s)). reflexivity.
+  - destruct (RwWriteEvSched.getf s i) as [f|]; cbn [option_map]; [|reflexivity]. destruct (RwWriteEvSched.fpc f); reflexivity.
+  - destruct (RwWriteEvSched.getf s i) as [f|]; cbn [option_map]; [|reflexivity]. destruct (RwWriteEvSched.fpc f); reflexivity.
+  - destruct (RwWriteEvSched.g_wb s) eqn:E; cbn [RwWriteEvSched.g_wb RwWriteEvSched.g_act]; rewrite ?E; reflexivity.
+  - destruct (0 <? RwWriteEvSched.g_rd s); reflexivity.
+  - destruct (0 <? RwWriteEvSched.g_pend s); [|reflexivity]. unfold RwWriteEvSched.do_notify. cbn [RwWriteEvSched.g_ev]. destruct (ev_notify 1 false (RwWriteEvSched.g_ev s)). reflexivity.
 Qed.
 
 (* ---------- coherence ---------- *)
-Definition wspec (s : W.gst) (a : W.act) : bool * bool :=
+Definition wspec (s : RwWriteEvSched.gst) (a : RwWriteEvSched.act) : bool * bool :=
   match a with
-  | W.AEnter j up => if enter_ok s j up then (true, true) else wbit s
-  | W.ACancel j => match wpc s j with Some W.WParked | Some W.WNew => (false, false) | _ => wbit s end
-  | W.AUnlock j => match wpc s j with Some W.WDone => (false, false) | _ => wbit s end
+  | RwWriteEvSched.AEnter j up => if enter_ok s j up then (true, true) else wbit s
+  | RwWriteEvSched.ACancel j => match wpc s j with Some RwWriteEvSched.WParked | Some RwWriteEvSched.WNew => (false, false) | _ => wbit s end
+  | RwWriteEvSched.AUnlock j => match wpc s j with Some RwWriteEvSched.WDone => (false, false) | _ => wbit s end
   | _ => wbit s
   end.
-Lemma W_bits s a : W.g_wb (W.step true s a) = fst (wspec s a) /\ W.g_act (W.step true s a) = snd (wspec s a).
+Lemma W_bits s a : RwWriteEvSched.g_wb (RwWriteEvSched.step true s a) = fst (wspec s a) /\ RwWriteEvSched.g_act (RwWriteEvSched.step true s a) = snd (wspec s a).
 Proof. pose proof (W_wb_step s a) as Q. fold (wspec s a) in Q. unfold wbit in Q at 1. rewrite <- Q. split; reflexivity. Qed.
 
-Definition Coh (s : cst) : Prop := R.g_wb (cR s) = W.g_wb (cW s) /\ W.g_act (cW s) = W.g_wb (cW s).
+Definition Coh (s : cst) : Prop := RwReadEvSched.g_wb (cR s) = RwWriteEvSched.g_wb (cW s) /\ RwWriteEvSched.g_act (cW s) = RwWriteEvSched.g_wb (cW s).
 
-Ltac wb1 a := match goal with |- context [W.step true ?x a] =>
+Ltac wb1 a := match goal with |- context [RwWriteEvSched.step true ?x a] =>
   rewrite (proj1 (W_bits x a)), (proj2 (W_bits x a)); cbn [wspec wbit fst snd] end.
 
 Lemma cstep_Coh s a : Coh s -> Coh (cstep s a).
@@ -147,20 +143,20 @@ Proof.
   intros (C1 & C2). unfold Coh, cstep.
   destruct a as [i lw0|i fail|i| | | |j up|j|j|j|j|j|]; cbn [tr].
   - cbn [fold_left cR cW]. rewrite R_wb_step. split; assumption.
-  - destruct (read_succeeds (cR s) i fail); cbn [fold_left cR cW]; rewrite R_wb_step; [wb1 W.ARead|]; split; assumption.
+  - destruct (read_succeeds (cR s) i fail); cbn [fold_left cR cW]; rewrite R_wb_step; [wb1 RwWriteEvSched.ARead|]; split; assumption.
   - cbn [fold_left cR cW]. rewrite R_wb_step. split; assumption.
-  - cbn [fold_left cR cW]. wb1 W.ARUnlock. split; assumption.
-  - cbn [fold_left cR cW]. wb1 W.ARead. split; assumption.
-  - cbn [fold_left cR cW]. wb1 W.APend. split; assumption.
+  - cbn [fold_left cR cW]. wb1 RwWriteEvSched.ARUnlock. split; assumption.
+  - cbn [fold_left cR cW]. wb1 RwWriteEvSched.ARead. split; assumption.
+  - cbn [fold_left cR cW]. wb1 RwWriteEvSched.APend. split; assumption.
   - destruct (enter_ok (cW s) j up) eqn:E; cbn [fold_left cR cW]; [|split; assumption].
-    rewrite R_wb_step. wb1 (W.AEnter j up). rewrite E. cbn [fst snd]. split; reflexivity.
-  - cbn [fold_left cR cW]. wb1 (W.APoll j). split; assumption.
-  - cbn [fold_left cR cW]. wb1 (W.AStep j). split; assumption.
-  - destruct (wpc (cW s) j) as [[]|] eqn:E; cbn [fold_left cR cW]; try rewrite R_wb_step; wb1 (W.ACancel j); rewrite E; cbn [wbit fst snd]; split; try reflexivity; assumption.
+    rewrite R_wb_step. wb1 (RwWriteEvSched.AEnter j up). rewrite E. cbn [fst snd]. split; reflexivity.
+  - cbn [fold_left cR cW]. wb1 (RwWriteEvSched.APoll j). split; assumption.
+  - cbn [fold_left cR cW]. wb1 (RwWriteEvSched.AStep j). split; assumption.
+  - destruct (wpc (cW s) j) as [[]|] eqn:E; cbn [fold_left cR cW]; try rewrite R_wb_step; wb1 (RwWriteEvSched.ACancel j); rewrite E; cbn [wbit fst snd]; split; try reflexivity; assumption.
   - destruct (wpc (cW s) j) as [[]|] eqn:E; cbn [fold_left cR cW]; try (split; assumption).
-    rewrite R_wb_step. wb1 (W.AUnlock j). rewrite E. cbn [fst snd]. split; reflexivity.
+    rewrite R_wb_step. wb1 (RwWriteEvSched.AUnlock j). rewrite E. cbn [fst snd]. split; reflexivity.
   - destruct (wpc (cW s) j) as [[]|] eqn:E; cbn [fold_left cR cW]; try (split; assumption).
-    rewrite R_wb_step. wb1 W.ARead. wb1 (W.AUnlock j). rewrite E. cbn [fst snd]. split; reflexivity.
+    rewrite R_wb_step. wb1 RwWriteEvSched.ARead. wb1 (RwWriteEvSched.AUnlock j). rewrite E. cbn [fst snd]. split; reflexivity.
   - cbn [fold_left cR cW]. rewrite R_wb_step. split; assumption.
 Qed.
 
@@ -173,10 +169,10 @@ Qed.
 (* ---------- C06 on the composed run ---------- *)
 (* both component theorems hold of every composed run *)
 Theorem rw_comp_no_lost_wakeup nr nw sched :
-  R.lostb (cR (crun nr nw sched)) = false /\ W.lostb (cW (crun nr nw sched)) = false.
+  RwReadEvSched.lostb (cR (crun nr nw sched)) = false /\ RwWriteEvSched.lostb (cW (crun nr nw sched)) = false.
 Proof.
   destruct (crun_components nr nw sched) as (HR & HW). rewrite HR, HW.
-  split; [apply RI.rw_read_sched_no_lost_wakeup | apply WI.rw_write_sched_no_lost_wakeup].
+  split; [apply RwReadEvInv.rw_read_sched_no_lost_wakeup | apply RwWriteEvInv.rw_write_sched_no_lost_wakeup].
 Qed.
 
 (* clause (b), in terms of writers: no future is past the inner mutex (no write() announced, no upgrade pending, no write
@@ -184,22 +180,22 @@ Qed.
    polled read() waits *)
 Theorem rw_comp_readers nr nw sched :
   let s := crun nr nw sched in
-  WI.cntb WI.actpc (W.g_futs (cW s)) = 0 -> R.quiescentb (cR s) = true -> existsb R.parkedb (R.g_futs (cR s)) = false.
+  RwWriteEvInv.cntb RwWriteEvInv.actpc (RwWriteEvSched.g_futs (cW s)) = 0 -> RwReadEvSched.quiescentb (cR s) = true -> existsb RwReadEvSched.parkedb (RwReadEvSched.g_futs (cR s)) = false.
 Proof.
   intros s A Q. destruct (crun_Coh nr nw sched) as (C1 & C2). fold s in C1, C2.
   destruct (crun_components nr nw sched) as (_ & HW). fold s in HW.
-  pose proof (WI.run_inv (aW s) 0 nw) as (_ & Ai & _). rewrite <- HW in Ai. unfold WI.Ainv in Ai. rewrite A in Ai.
-  assert (Act : W.g_act (cW s) = false) by (destruct (W.g_act (cW s)); [cbn in Ai; discriminate | reflexivity]).
-  assert (Wb : R.g_wb (cR s) = false) by (rewrite C1, <- C2; exact Act).
-  destruct (rw_comp_no_lost_wakeup nr nw sched) as (LR & _). fold s in LR. unfold R.lostb in LR. rewrite Wb, Q in LR. cbn [negb andb] in LR. exact LR.
+  pose proof (RwWriteEvInv.run_inv (aW s) 0 nw) as (_ & Ai & _). rewrite <- HW in Ai. unfold RwWriteEvInv.Ainv in Ai. rewrite A in Ai.
+  assert (Act : RwWriteEvSched.g_act (cW s) = false) by (destruct (RwWriteEvSched.g_act (cW s)); [cbn in Ai; discriminate | reflexivity]).
+  assert (Wb : RwReadEvSched.g_wb (cR s) = false) by (rewrite C1, <- C2; exact Act).
+  destruct (rw_comp_no_lost_wakeup nr nw sched) as (LR & _). fold s in LR. unfold RwReadEvSched.lostb in LR. rewrite Wb, Q in LR. cbn [negb andb] in LR. exact LR.
 Qed.
 
 (* clause (d): no reader is left and the writer side is at rest ==> no polled write() / upgrade() waits *)
 Theorem rw_comp_writer nr nw sched :
   let s := crun nr nw sched in
-  W.g_rd (cW s) = 0 -> W.quiescentb (cW s) = true -> existsb W.parkedb (W.g_futs (cW s)) = false.
+  RwWriteEvSched.g_rd (cW s) = 0 -> RwWriteEvSched.quiescentb (cW s) = true -> existsb RwWriteEvSched.parkedb (RwWriteEvSched.g_futs (cW s)) = false.
 Proof.
-  intros s Z Q. destruct (rw_comp_no_lost_wakeup nr nw sched) as (_ & LW). fold s in LW. unfold W.lostb in LW.
+  intros s Z Q. destruct (rw_comp_no_lost_wakeup nr nw sched) as (_ & LW). fold s in LW. unfold RwWriteEvSched.lostb in LW.
   rewrite Z, Q in LW. cbn in LW. exact LW.
 Qed.
 
@@ -211,5 +207,5 @@ Example rw_comp_example :
                      CRPoll 1 true; CRStep 1 false; CRStep 1 false; CRStep 1 false;       (* read() 1: listens, parks *)
                      CRUnlock; CPendNR; CWPoll 0; CWStep 0; CWStep 0;                     (* last reader leaves; the writer completes *)
                      CWUnlock 0; CPendNW; CRPoll 1 true; CRStep 1 false; CRStep 1 false; CRStep 1 false; CRStep 1 false; CRStep 1 false] in
-  R.g_wb (cR s) = false /\ W.g_rd (cW s) = 1 /\ option_map R.fpc (R.getf (cR s) 1) = Some R.RDone /\ option_map W.fpc (W.getf (cW s) 0) = Some W.WGone.
+  RwReadEvSched.g_wb (cR s) = false /\ RwWriteEvSched.g_rd (cW s) = 1 /\ option_map RwReadEvSched.fpc (RwReadEvSched.getf (cR s) 1) = Some RwReadEvSched.RDone /\ option_map RwWriteEvSched.fpc (RwWriteEvSched.getf (cW s) 0) = Some RwWriteEvSched.WGone.
 Proof. vm_compute. repeat split. Qed.
